@@ -40,7 +40,13 @@ func genC04(r *Rnd, t Tier) *Case {
 	sleepBase := br.Delay
 	if r.P(0.06) {
 		br.Delay = foreverDelay(r)
+	} else if r.P(0.2) {
+		// a computed delay: the function's value when an execution opens the breaker and the function returns one,
+		// the configured delay otherwise (manual Open, or the function returning -1)
+		br.DelayFn = []D{time.Duration(r.Range(5, 40)) * unit, -1, time.Duration(r.Range(5, 40)) * unit}
+		sleepBase = br.DelayFn[0]
 	}
+	manualOpen := r.P(0.15)
 	sc.Policies = []PolicySpec{br}
 	nst := r.Range(1, 3)
 	for s := 0; s < nst; s++ {
@@ -89,6 +95,10 @@ func genC04(r *Rnd, t Tier) *Case {
 				op.CancelAt = time.Duration(r.Range(0, 20)) * unit
 			}
 			ops = append(ops, op)
+			if manualOpen && r.P(0.3) {
+				// opened by hand while executions are in flight: no execution is attached, the configured delay applies
+				ops = append(ops, Op{Kind: "br.open", Pol: 0})
+			}
 		}
 		sc.Clients = append(sc.Clients, Client{Ops: ops})
 	}
@@ -163,9 +173,9 @@ func checkC04(c *checkCtx) {
 	// The instant it opened lies at or after the last thing the opening task logged before the
 	// listener ran, and the instant it half-opened at or before the half-open listener's log time
 	// (a stalled task only logs later), so the difference bounds the elapsed time from above.
-	manual := len(p.DelayFn) > 0
+	manual := false
 	for i := range ev {
-		if ev[i].Kind == EvStandalone && ev[i].Pos == 0 {
+		if ev[i].Kind == EvStandalone && ev[i].Pos == 0 && ev[i].Str != "br.open" {
 			manual = true
 		}
 	}
@@ -175,15 +185,28 @@ func checkC04(c *checkCtx) {
 		}
 		op := trs[k-1]
 		opened := op.t
+		// the delay of this open state: what the delay function returned to the task that opened the breaker
+		// (it is consulted with the execution being recorded, just before the listeners run), else the configured one
+		delay, what := p.Delay, "configured"
 		for j := op.seq - 1; j >= 0; j-- {
-			if ev[j].Task == ev[op.seq].Task && !(ev[j].Kind == EvListener && ev[j].Pos == 0 && (ev[j].L == LBrStateChanged || ev[j].L == LBrOpen)) {
+			if ev[j].Task != ev[op.seq].Task {
+				continue
+			}
+			if ev[j].Kind == EvDelayFn && ev[j].Pos == 0 {
+				if ev[j].A != -1 && what == "configured" {
+					delay, what = time.Duration(ev[j].A), "computed"
+					c.cov("c04.computed_delay")
+				}
+				continue
+			}
+			if !(ev[j].Kind == EvListener && ev[j].Pos == 0 && (ev[j].L == LBrStateChanged || ev[j].L == LBrOpen)) {
 				opened = ev[j].T
 				break
 			}
 		}
 		c.cov("c04.halfopen_after_delay_checked")
-		if el := tr.t - opened; el < p.Delay {
-			c.fail("C04.open-admits", "early-halfopen", fmt.Sprintf("the breaker opened at t>=%v (event #%d) and half-opened at t<=%v (event #%d): at most %v of its %v delay had elapsed", opened, op.seq, tr.t, tr.seq, el, p.Delay))
+		if el := tr.t - opened; el < delay {
+			c.fail("C04.open-admits", "early-halfopen", fmt.Sprintf("the breaker opened at t>=%v (event #%d) and half-opened at t<=%v (event #%d): at most %v of its %s %v delay had elapsed", opened, op.seq, tr.t, tr.seq, el, what, delay))
 		}
 	}
 	// (b) half-open: concurrently running admitted trials never exceed the capacity
